@@ -97,6 +97,8 @@ class DiGraphEx(nx.DiGraph):
             Base Graph that will be used for the computations
         """
         graph = deepcopy(self)
+        # networkx's subgraph().copy() returns a bare DiGraphEx: remember the per node tables to carry them along
+        tag, debug, setup, compound_priority = graph.tag, graph.debug, graph.setup, graph.compound_priority
 
         # first try to heavily prune removing roots
         if root_nodes is not None:
@@ -117,6 +119,7 @@ class DiGraphEx(nx.DiGraph):
         if target_nodes is not None:
             graph = graph.minimal_induced_subgraph(target_nodes).copy()
 
+        graph.tag, graph.debug, graph.setup, graph.compound_priority = tag, debug, setup, compound_priority
         return graph
 
     @property
